@@ -239,7 +239,9 @@ def _time_tabulate(ctx) -> None:
             bad.append(f"{label}: returns {got!r}; must raise {want[1]}")
         elif want[0] == "time":
             g = vars(got).get("_tod") if isinstance(got, minieval.Obj) else None
-            if g != want[1]:
+            if isinstance(got, _dt.time):
+                bad.append(f"{label}: returns the standard-library {got!r}, not a Time")
+            elif g != want[1]:
                 bad.append(f"{label}: {g if g is not None else got!r} (expected {want[1]})")
         elif want[0] == "dur":
             if not isinstance(got, minieval.Stub) or (getattr(got, "_kind", None), getattr(got, "_us", None)) != (want[1], want[2]):
@@ -265,7 +267,9 @@ def _time_tabulate(ctx) -> None:
                 du = d // _dt.timedelta(microseconds=1)
                 pd = minieval.Stub(_kind="Duration", _types=(_dt.timedelta,), _native=d, _us=du, days=d.days, seconds=d.seconds, microseconds=d.microseconds, hours=d.seconds // 3600,
                                    minutes=d.seconds % 3600 // 60, remaining_seconds=d.seconds % 60, remaining_days=0, weeks=0, years=0, months=0, total_seconds=d.total_seconds,
-                                   in_seconds=lambda d_=d: int(d_.total_seconds()))
+                                   in_seconds=lambda d_=d: int(d_.total_seconds()),
+                                   # added to / taken from a standard-library value it acts as the timedelta it is
+                                   _add=lambda o, d_=d: o + d_, _rsub=lambda o, d_=d: o - d_)
                 check("__add__", f"Time({t}) + Duration({d})", lambda: w.call(x(), "__add__", [pd]), ("time", tod(us(t) + du)))
                 check("__sub__", f"Time({t}) - Duration({d})", lambda: w.call(x(), "__sub__", [pd]), ("time", tod(us(t) - du)))
             for d in (_dt.timedelta(days=1), _dt.timedelta(days=-1, hours=1), _dt.timedelta(days=2, microseconds=1)):
